@@ -187,12 +187,21 @@ class IdxAnalysis:
                 body.add(x)
                 st.extend(succ.get(x, ()))
             conds = []
+            copies = {}
             for x in body:
                 bx = f.blocks[x]
                 if "c" in bx and bx.get("t") != "SwitchStmt":
                     conds.append(bx["c"])
+                for e in bx["e"]:
+                    # v = list[...] inside the body: a later test of v is a test of the list's element
+                    if e[0] == "A" and e[1][1] == "=" and is_var(e[1][2], kind="l"):
+                        r = strip(e[1][3])
+                        if isinstance(r, list) and r and r[0] == "i" and is_var(r[1]):
+                            copies[strip(e[1][2])[2]] = (strip(r[1])[2], _shape(r[2]))
             if conds:
                 out[bid] = conds
+                self._loop_copies = getattr(self, "_loop_copies", {})
+                self._loop_copies[bid] = copies
         return out
 
     # ---- helpers on fact sets
@@ -202,7 +211,7 @@ class IdxAnalysis:
         for ft in facts:
             if ft[0] in ("ext", "ge0", "lt") and (ft[1] == ("v", name) or (ft[1][0] == "el" and (ft[1][2] == name or ft[1][1] == name))):
                 continue
-            if ft[0] in ("dim", "zero", "pos", "nonpos", "from", "const", "lookup") and ft[1] == name:
+            if ft[0] in ("dim", "zero", "pos", "nonpos", "from", "const", "lookup", "fromshape") and ft[1] == name:
                 continue
             out.add(ft)
         return out
@@ -355,6 +364,9 @@ class IdxAnalysis:
                     src = None
             if src is not None:
                 fs.add(("from", name, src))
+                if k[0] == "el":
+                    r0 = strip(rhs)
+                    fs.add(("fromshape", name, _shape(r0[2]) if isinstance(r0, list) and r0 and r0[0] == "i" else ()))
             ge0, lts = self.facts_for(old, k)
             if ge0:
                 fs.add(("ge0", nk))
@@ -511,6 +523,11 @@ class IdxAnalysis:
                                     for l2, op2, r2 in atoms(c2, tr):
                                         for a2, b2, o2 in ((l2, r2, op2), (r2, l2, SWAP[op2])):
                                             k2 = key_of(a2)
+                                            if k2 and k2[0] == "v" and k2[1] in getattr(self, "_loop_copies", {}).get(hb, {}):
+                                                lname, lshape = self._loop_copies[hb][k2[1]]
+                                                k2 = ("el", lname, "?")
+                                                a2 = ["i", ["v", "l", lname], None]
+                                                fs.add(("vshape", lname, lshape))
                                             if k2 and k2[0] == "el" and ("arr", k2[1]) in facts:
                                                 cb = const_of(b2)
                                                 if cb is not None and ((o2 == ">=" and cb >= 0) or (o2 == ">" and cb >= -1)):
@@ -566,6 +583,17 @@ class IdxAnalysis:
         return [(rv, tmp, frozenset(fs))]
 
     def add_fact(self, fs, kind, k, cls=None, tree=None):
+        if k[0] == "v":
+            # a local copy of a list element (col = list[beg[i] + j]; if (col < 0 || ...) reject): the test validates the list as a test of
+            # the element itself would, with the shape of the position it was copied from
+            src = next((ft[2] for ft in fs if ft[0] == "from" and ft[1] == k[1]), None)
+            shp = next((ft[2] for ft in fs if ft[0] == "fromshape" and ft[1] == k[1]), None)
+            if src is not None and shp is not None and ("arr", src) in fs:
+                fs.add(("vshape", src, shp))
+                if kind == "ge0":
+                    fs.add(("allge0", src))
+                else:
+                    fs.add(("alllt", src, cls))
         if k[0] == "el":
             t0 = strip(tree) if tree is not None else None
             fs.add(("vshape", k[1], _shape(t0[2]) if isinstance(t0, list) and t0 and t0[0] == "i" else ()))
